@@ -128,6 +128,8 @@ def run(ck):
     # ... and the scan that finds the existing indices reads exactly the names the writer produces: if the two split the active
     # file's name differently (svc.err.log), no existing file is ever seen and index 1 is handed out again and again
     name_scheme(ck, S, "C05-O6")
+    from rules.rfs import names_stay_in_the_configured_directory
+    names_stay_in_the_configured_directory(ck, S, "C05-O6")
     # "decompressing compressed ones": a reader checks the trailer, so the archive's checksum must be the CRC-32 of what was compressed
     ck.rule("C05-O8", "the CRC-32 written into the gzip trailer is the standard one over every byte of the rotated file (shared with C08-O4): a wrong checksum makes the records unreadable for any gzip reader")
     from rules.c08 import crc32, single_deflate_stream
